@@ -355,7 +355,11 @@ func ruleStepUpDown(c *Ctx) {
 func init() {
 	register("C03", "Only the current leaseholder serves or persists leader-only state", func(c *Ctx) {
 		c.Group("C03/campaign", "campaign = create-if-absent put of the leader key bound to the lease; a lost campaign closes the lease; Check() depends on lease expiry", func() { ruleCampaignShape(c) })
-		c.Group("C03/leader-guarded-write", "every etcd write of a leader-only key class (time window, id window, member priority, dc-location removal, encryption keys) is conditional on the leader record and reports success only when applied", func() { ruleLeaderOnlyKeys(c, "") })
+		c.Group("C03/leader-guarded-write", "every etcd write of a leader-only key class (time window, id window, member priority, dc-location removal, encryption keys) is conditional on the leader record and reports success only when applied", func() {
+			ruleLeaderOnlyKeys(c, "")
+			// the one leader-only write whose transaction does not compare the leader record
+			ruleSuffixLeaderOnly(c, "C03/leader-guarded-write")
+		})
 		c.Group("C03/not-leader-refused", "every PDServer handler refuses (validateRequest: closed, not leader, other cluster) before touching cluster, storage or id-allocator state", func() { ruleHandlersValidate(c) })
 		c.Group("C03/getTS", "(shared with C01) the lease is checked before and after a timestamp is generated", func() { ruleGetTS(c) })
 		c.Group("C03/global-generate", "(shared with C01) the global path re-checks the lease after its last write", func() { ruleGlobalGenerate(c) })
